@@ -1,6 +1,7 @@
 import MjProof.Model.MjxMath
 import MjProof.Gen.Kernels
 import MjProof.Lemmas.RealNum
+import MjProof.Lemmas.MjxKbi
 import Mathlib.Tactic.Ring
 import Mathlib.Tactic.Linarith
 import Mathlib.Tactic.NormNum
@@ -14,13 +15,18 @@ compiled C by `checks/kernelval.py`) are THE SAME real function: the theorems be
 `ℝ` for all inputs (for `rotate`: all unit quaternions, the domain on which both are a rotation).
 Rounding is outside the proofs; the two Float evaluations are compared by the check (1e-12).
 
+Constraint parameters: `mjx_kbi_eq_c` — `_kbi` of `mjx/_src/constraint.py` (hand model `mjxKbi`, compared with the real
+function) and the K, B, I that `getsolparam` / `getimpedance` / `mj_makeImpedance` write to `efc_KBIP` (hand model `cKbi`,
+compared with the real C engine) are the same real function for both solref formats, either REFSAFE setting and every
+solimp with `dmin ≤ dmax`, `width > mjMINVAL`; outside these hypotheses the two sources genuinely differ (findings).
+
 Everything else of C43 (kinematics, inertia, bias/passive forces, actuation, contacts, constraints,
 solver, sensors, integrators — the whole pipeline) is NOT claimed by a theorem: it is examined by the
 oracle on the real code (one model description instantiated in the tree's C engine and in MJX).
 The feature gate is in `Props/C43Gate.lean`.
 -/
 namespace MjProof.C43
-open MjProof MjProof.Gen MjProof.MjxMath
+open MjProof MjProof.Gen MjProof.MjxMath MjProof.MjxKbi
 
 /-! the operations of the `MjNum ℝ` instance are the field operations of `ℝ` (definitionally) -/
 private theorem r_mul (a b : ℝ) : @HMul.hMul ℝ ℝ ℝ (@instHMul ℝ (MjNum.toMul)) a b = a * b := rfl
@@ -122,5 +128,48 @@ example : rotate (1 : ℝ) 0 0 2 0 0 0 ≠ mju_rotVecQuat (1 : ℝ) 0 0 2 0 0 0 
   intro heq
   rw [heq] at h
   norm_num at h
+
+/-! ### stiffness, damping and impedance of a constraint row (`constraint._kbi` versus `mj_makeImpedance`) -/
+
+/-- **`_kbi` of MJX computes the K, B, I of `efc_KBIP` of the C engine**, for every REFSAFE setting, time step, solref in
+    either format (standard: both positive; direct: both non-positive), every solimp with `dmin ≤ dmax` and
+    `width > mjMINVAL`, any midpoint and power (both sides clamp them) and every position; `hden` says that the two
+    denominators the C engine guards with `mju_max(mjMINVAL, ·)` are not below `mjMINVAL` (standard format only). -/
+theorem mjx_kbi_eq_c (refsafe : Bool) (ts sr0 sr1 d0 d1 w mid p pos : ℝ)
+    (hfmt : 0 < sr0 ↔ 0 < sr1) (hd : d0 ≤ d1) (hw : 1 / 10 ^ 15 < w)
+    (hden : 0 < sr0 →
+      (1 / 10 ^ 15 : ℝ) ≤ min (max d1 (1 / 10000)) (9999 / 10000) * min (max d1 (1 / 10000)) (9999 / 10000)
+          * (if refsafe then max sr0 (2 * ts) else sr0) * (if refsafe then max sr0 (2 * ts) else sr0) * sr1 * sr1
+      ∧ (1 / 10 ^ 15 : ℝ) ≤ min (max d1 (1 / 10000)) (9999 / 10000) * (if refsafe then max sr0 (2 * ts) else sr0)) :
+    mjxKbi rpw refsafe ts sr0 sr1 d0 d1 w mid p pos = cKbi rpw refsafe ts sr0 sr1 d0 d1 w mid p pos := by
+  have hwJ : MjNum.max (minval : ℝ) w = w := by rw [max_real, minval_real]; exact max_eq_right hw.le
+  have hwC : MjNum.max (zero : ℝ) w = w := by
+    rw [max_real, zero_real]; exact max_eq_right (le_trans (by positivity) hw.le)
+  have hcl : ∀ x : ℝ, cclip x minimp maximp = jclip x minimp maximp := fun x => by rw [cclip_real, jclip_real]
+  have hjc : ∀ x : ℝ, jclip x minimp maximp = min (max x (1 / 10000)) (9999 / 10000) := fun x => by
+    rw [jclip_real, minimp_real, maximp_real]
+  have hmono : min (max d0 (1 / 10000)) (9999 / 10000 : ℝ) ≤ min (max d1 (1 / 10000)) (9999 / 10000) :=
+    min_le_min (max_le_max hd le_rfl) le_rfl
+  have hP : (1 : ℝ) ≤ MjNum.max (one : ℝ) p := by rw [max_real, one_real]; exact le_max_left _ _
+  simp only [mjxKbi, cKbi, hcl, hwJ, hwC, hjc]
+  refine Prod.ext ?_ (Prod.ext ?_ ?_)
+  · exact mjx_K_eq_c refsafe ts sr0 sr1 _ hfmt (clip_imp_bounds d1).1 (fun h => (hden h).1)
+  · exact mjx_B_eq_c refsafe ts sr0 sr1 _ hfmt (clip_imp_bounds d1).1 (fun h => (hden h).2)
+  · exact mjx_imp_eq_c _ _ w _ _ pos hmono hw
+      (lt_of_lt_of_le (by norm_num) (clip_imp_bounds mid).1) (lt_of_le_of_lt (clip_imp_bounds mid).2 (by norm_num)) hP
+
+/-! non-vacuity: the default parameters (solref 0.02 1, solimp 0.9 0.95 0.001 0.5 2, timestep 0.002, REFSAFE active) and a
+    direct-format solref (-2000, -40) satisfy the hypotheses -/
+example : mjxKbi rpw true 0.002 0.02 1 0.9 0.95 0.001 0.5 2 0.0004 = cKbi rpw true 0.002 0.02 1 0.9 0.95 0.001 0.5 2 0.0004 := by
+  apply mjx_kbi_eq_c <;> norm_num [max_def, min_def]
+example : mjxKbi rpw true 0.002 (-2000) (-40) 0.9 0.95 0.001 0.5 2 0.0004 = cKbi rpw true 0.002 (-2000) (-40) 0.9 0.95 0.001 0.5 2 0.0004 := by
+  apply mjx_kbi_eq_c <;> norm_num [max_def, min_def]
+
+/-- outside the hypotheses the two really differ — mixed-sign solref: the C engine substitutes the default (0.02, 1),
+    `_kbi` combines the standard K with the direct B -/
+example : (mjxKbi rpw false 0.002 0.01 (-10) 0.9 0.95 0.001 0.5 2 0).2.1 ≠ (cKbi rpw false 0.002 0.01 (-10) 0.9 0.95 0.001 0.5 2 0).2.1 := by
+  simp only [mjxKbi, cKbi, mjxB, cB, cSolref, jclip_real, cclip_real, max_real, one_real, zero_real, two_real, minimp_real,
+    maximp_real, minval_real, k_mul, k_div, k_neg, k_lt, k_le]
+  norm_num [max_def, min_def]
 
 end MjProof.C43
